@@ -133,6 +133,10 @@ def run_pair(case):
                          ("mul-commuted", q * p, rr.pmul(rp, rq))):
     v = check_poly(got, exp, "ring:" + name, "operator result differs from exact polynomial arithmetic", n)
     if v: return v
+  # the operand objects used above must be unchanged by all the operations applied to them
+  if terms(p) != rp or terms(q) != rq or stored_zero(p) or stored_zero(q):
+    return bad("ring:operand-mutated", "an operator modified one of its operands",
+               {"p": rp, "q": rq}, {"p": dict(p.terms()), "q": dict(q.terms())}, n)
   if not ((p + q) == (q + p)) or not ((p * q) == (q * p)) or (p + q) != (q + p) or (p * q) != (q * p) \
      or hash(p + q) != hash(q + p) or hash(p * q) != hash(q * p):
     return bad("ring:commutative:eq", "commuted results must be ==, not != and hash equally", None, None, n)
@@ -243,6 +247,8 @@ def run_single(case):
                  "and not be !=", {"zeros": [repr(zs[a]), repr(zs[b])]}, [hash(pa), hash(pb), pa != pb], n)
     if (pa == pb) == (pa != pb):
       return bad("eq:exclusive", "exactly one of == and != must hold", None, [pa == pb, pa != pb], n)
+  if terms(p) != rp:
+    return bad("ring:operand-mutated", "an operator modified its operand", rp, dict(p.terms()), n)
   # order / values
   if not has_neg(ps):
     exp_order = max(rp) if rp else 0
